@@ -219,3 +219,10 @@ v("C01,C03", J21, "                            data = buf['data'][offset:]\n    
   "                            chunk = list(buf['data'][offset:offset + 7])\n                            chunk = chunk + [255] * (7 - len(chunk))\n                            data = [package + 1] + chunk\n", "keep", "slice + concatenation padding idiom instead of truncate/pad loop")
 v("C01,C03", J21, "                            data = buf['data'][offset:]\n                            if len(data)>7:\n                                data = data[:7]\n                            else:\n                                while len(data)<7:\n                                    data.append(255)\n                            data.insert(0, package+1)\n",
   "                            chunk = list(buf['data'][offset:offset + 7])\n                            chunk = chunk + [255] * (8 - len(chunk))\n                            data = [package + 1] + chunk\n", "break", "same idiom padding to 8 data bytes")
+v("C01", J21, "        self._rcv_buffer[buffer_hash]['deadline'] = time.time() + self.Timeout.T1\n        self.__job_thread_wakeup()", "        self.__job_thread_wakeup()", "break", "DT does not refresh the receive deadline (long BAM cut off)")
+v("C11", J22, "'data_length': data_length, 'data': data.copy()}", "'data_length': data_length, 'data': data}", "break", "buffered group aliases the caller's list")
+v("C11", J22, "'data_length': data_length, 'data': data.copy()}", "'data_length': data_length, 'data': list(data)}", "keep", "copy respelled")
+v("C01,C05", J21, "            self.__notify_subscribers(mid.priority, pgn.value, mid.source_address, ParameterGroupNumber.Address.GLOBAL, timestamp, data)\n            return\n\n        # peer to peer",
+  "            self.__notify_subscribers(mid.priority, pgn.value & 0x1FF00, mid.source_address, ParameterGroupNumber.Address.GLOBAL, timestamp, data)\n            return\n\n        # peer to peer", "break", "PDU2 delivered without its group extension")
+v("C01", J21, "            mid = MessageId(priority=priority, parameter_group_number=pgn.value, source_address=src_address)\n            self.__send_message(mid.can_id, True, data)\n        else:",
+  "            mid = MessageId(priority=priority, parameter_group_number=pgn.value & 0xFFFF, source_address=src_address)\n            self.__send_message(mid.can_id, True, data)\n        else:", "break", "data page dropped from single frames")
